@@ -11,6 +11,15 @@ BASELINE = ("cd /repo && /venv/bin/python -m pytest -ra -q -p no:cacheprovider -
 
 # pid -> (category, text, design_ref, level_note, technique)
 CLAIMED = {
+ "C18": ("model_checking",
+         "spec/History.tla states the delivery rule (start file, replayable records, due = timestamp <= replay clock + look-ahead, a "
+         "load returns the next undelivered due records up to its limit); MC_History explores every bounded scenario under every "
+         "schedule of ticks and load(limit) calls (ExactlyOnceInOrder, NotEarly, NotLate, <>all delivered); every emitted scenario is "
+         "written with the real logger (rotated, gz, bz2, duplicates, comment/corrupt lines) and replayed by the real loader under a "
+         "virtual clock; TLC (HistoryTrace) accepts a run iff every load returned exactly what the rule says, completion is "
+         "reported only after everything was delivered and the final register map is the last logged one.",
+         "5/C18", "integer-second timestamps; known finding F4 (files whose records share one timestamp) identified by scenario class",
+         "TLA+ delivery rule + TLC exhaustive schedules; real logger/loader runs under a virtual clock validated by TLC trace spec"),
  "C10": ("model_checking",
          "spec/Automata.tla: big-step semantics of the framework (accept/process, limit resolution, delegate with repeat cycles, "
          "greedy/terminal stopping, final sent <= ending check); MC_Automata evaluates 7 synthetic machine templates under every "
